@@ -136,6 +136,7 @@ class LExists(Contract):
 
 class MatchLiteral(Contract):
     module, qual, props = 'glob', 'Glob._match_literal', ('C05', 'C17')
+    # no CPython cross-check here: str.lower is an uninterpreted function in the model, so a model's `lower` need not be Python's
 
     def inputs(self):
         self.a, self.b, self.cs = z3.String('a'), z3.String('b'), z3.Bool('self_case_sensitive')
@@ -151,6 +152,10 @@ class MatchLiteral(Contract):
 class IsThis(Contract):
     module, qual, props = 'glob', 'Glob._is_this', ('C05', 'C03')
 
+    def crosscheck(self, eng, paths, inp):
+        from .base import simple_crosscheck
+        return simple_crosscheck(self, eng, paths, inp)
+
     def inputs(self):
         self.name, self.sep = z3.String('name'), z3.String('self_sep')
         fields = dict(specials=V('tuple', None, items=[Str('.'), Str('..')]), sep=Str(self.sep))
@@ -164,6 +169,10 @@ class IsThis(Contract):
 
 class IsParent(Contract):
     module, qual, props = 'glob', 'Glob._is_parent', ('C05', 'C03')
+
+    def crosscheck(self, eng, paths, inp):
+        from .base import simple_crosscheck
+        return simple_crosscheck(self, eng, paths, inp)
 
     def inputs(self):
         self.name = z3.String('name')
